@@ -139,14 +139,53 @@ structure UVAxis (α : Type) where
   scale : α
   deriving Repr, BEq, DecidableEq
 
-/-- `vmf.Side`: the three plane points and the two texture axes. -/
+/-- `vmf.DispVertex`: the three per-vertex vectors (directions) and the scalars that go with them. -/
+structure DispVert (α : Type) where
+  normal : V3 α
+  offset : V3 α
+  offsetNorm : V3 α
+  distance : α
+  alpha : α
+  deriving Repr, BEq, DecidableEq
+
+/-- Displacement data of a face: `disp_pos` (a position) and the vertex grid. -/
+structure Disp (α : Type) where
+  pos : V3 α
+  verts : List (DispVert α)
+  deriving Repr, BEq, DecidableEq
+
+/-- `vmf.Side`: the three plane points, the two texture axes and the displacement data if any. -/
 structure Side (α : Type) where
   p0 : V3 α
   p1 : V3 α
   p2 : V3 α
   u : UVAxis α
   v : UVAxis α
+  disp : Option (Disp α)
   deriving Repr, BEq, DecidableEq
+
+section DispGeom
+variable {α : Type} [Add α] [Mul α]
+
+/-- Directions are rotated without the offset: `v @ orient`. -/
+def placeDir (P : Placement α) (v : V3 α) : V3 α := rot P.R v
+
+/-- `vert.offset @= orient; vert.normal @= orient; vert.offset_norm @= orient` -/
+def DispVert.localise (P : Placement α) (d : DispVert α) : DispVert α :=
+  { d with normal := placeDir P d.normal, offset := placeDir P d.offset,
+           offsetNorm := placeDir P d.offsetNorm }
+
+/-- `self.disp_pos.localise(origin, orient)` and every vertex rotated. -/
+def Disp.localise (P : Placement α) (d : Disp α) : Disp α :=
+  ⟨place P d.pos, d.verts.map (DispVert.localise P)⟩
+
+def V3.smul (c : α) (v : V3 α) : V3 α := ⟨c * v.x, c * v.y, c * v.z⟩
+
+/-- World position of a displaced vertex whose flat position on the face is `base`
+(Source: `base + distance·normal + offset`; the elevation term is along `offset_normal`). -/
+def DispVert.point (d : DispVert α) (elev : α) (base : V3 α) : V3 α :=
+  ((base.add (V3.smul d.distance d.normal)).add d.offset).add (V3.smul elev d.offsetNorm)
+end DispGeom
 
 abbrev Solid (α : Type) := List (Side α)
 
@@ -162,9 +201,11 @@ def localiseAxis (P : Placement α) (ax : UVAxis α) : UVAxis α :=
 /-- Texture coordinate of the world point `p` under axis `ax` (Source: `p·axis/scale + offset`). -/
 def texCoord (ax : UVAxis α) (p : V3 α) : α := p.dot ax.dir / ax.scale + ax.offset
 
-/-- `Side.localise` (non-displacement part). -/
+/-- `Side.localise`: plane points placed, both axes localised, displacement start position placed
+and its per-vertex vectors rotated. -/
 def Side.localise (P : Placement α) (s : Side α) : Side α :=
-  ⟨place P s.p0, place P s.p1, place P s.p2, localiseAxis P s.u, localiseAxis P s.v⟩
+  ⟨place P s.p0, place P s.p1, place P s.p2, localiseAxis P s.u, localiseAxis P s.v,
+   s.disp.map (Disp.localise P)⟩
 
 /-- `Solid.localise` -/
 def Solid.localise (P : Placement α) (b : Solid α) : Solid α := b.map (Side.localise P)
